@@ -58,6 +58,12 @@ type WSCase struct {
 	ReadLimit int          `json:"read_limit,omitempty"`
 	UpDefault bool         `json:"up_default,omitempty"`
 	Conns    []WSConnPlan  `json:"conns"`
+	// Release: Upgrader.ReleasePayload - the payload handed to the message callback goes back to the
+	// pool when the callback returns (so it must be intact for as long as the callback runs)
+	Release bool `json:"release,omitempty"`
+	// Pongs: the clients put an unsolicited pong frame in front of every message, and the server has
+	// a pong handler, which is a callback of the connection like the others: one at a time
+	Pongs bool `json:"pongs,omitempty"`
 }
 
 func genWSCase(r *simrt.Rand, tier string) *WSCase {
@@ -76,6 +82,8 @@ func genWSCase(r *simrt.Rand, tier string) *WSCase {
 	c.FrameMax = r.Pick(0, 16, 100, 1000)
 	c.Compress = r.Bool(0.3)
 	c.TLS = c.IOMod != "std" && r.Bool(0.2)
+	c.Release = r.Bool(0.2)
+	c.Pongs = r.Bool(0.2)
 	nc := r.Range(1, 3)
 	for i := 0; i < nc; i++ {
 		p := WSConnPlan{Frag: r.Pick(0, 0, 1, 10), Eager: r.Bool(0.6), HandlerYields: r.Pick(0, 1, 3), Piece: r.Pick(1, 7, 100000, 100000)}
@@ -305,7 +313,30 @@ func runWSCase(t *testing.T, c *WSCase, trace bool) *common.Outcome {
 		u.KeepaliveTime = time.Hour
 		u.BlockingModSendQueueMaxSize = 0
 		u.EnableCompression(c.Compress)
+		u.ReleasePayload = c.Release
 		byAddr := map[string]*wsConnState{}
+		if c.Pongs {
+			u.SetPongHandler(func(wc *websocket.Conn, appData string) {
+				cs := byWSC[wc]
+				if cs == nil {
+					return // (before the open callback: the ordering of data messages is what is judged)
+				}
+				cs.events = append(cs.events, "pong-start")
+				cs.inCB++
+				if cs.inCB > 1 {
+					if n := len(cs.events); n >= 2 && cs.events[n-2] == "open-start" {
+						// the same ordering failure as a message callback that overtakes the open callback
+						fail("message-before-open", c.IOMod, "the pong handler started while the open callback was still running; log: %v", cs.events)
+					}
+					fail("callbacks-overlap", class+"/pong", "the pong handler started while another callback of the same connection was running; log: %v", cs.events)
+				}
+				for y := 0; y < cs.plan.HandlerYields; y++ {
+					simrt.Yield()
+				}
+				cs.inCB--
+				cs.events = append(cs.events, "pong-end")
+			})
+		}
 		u.OnOpen(func(x *websocket.Conn) {
 			// runs inside Upgrade; the connection is identified by the peer's address
 			cs := byAddr[x.RemoteAddr().String()]
@@ -347,6 +378,9 @@ func runWSCase(t *testing.T, c *WSCase, trace bool) *common.Outcome {
 			cs.gotMsgs = append(cs.gotMsgs, append([]byte(nil), data...))
 			for y := 0; y < cs.plan.HandlerYields; y++ {
 				simrt.Yield()
+			}
+			if !bytes.Equal(data, cs.gotMsgs[k]) {
+				fail("payload-changed-during-callback", class, "connection: the payload of message %d changed while its callback was running (the buffer was released or reused too early); log: %v", k, cs.events)
 			}
 			cs.inCB--
 			cs.events = append(cs.events, fmt.Sprintf("msg-end %d", k))
@@ -566,6 +600,9 @@ func runWSCase(t *testing.T, c *WSCase, trace bool) *common.Outcome {
 						frames = []stream.Frame{{Fin: true, Op: 2, Masked: true, Payload: payload}}
 					}
 					frames[0].Rsv = rsv
+					if c.Pongs {
+						burst = append(burst, stream.EncodeFrame(stream.Frame{Fin: true, Op: 10, Masked: true, Payload: []byte{byte(j)}}, [4]byte{1, 2, 3, byte(j)})...)
+					}
 					for _, f := range frames {
 						burst = append(burst, stream.EncodeFrame(f, [4]byte{byte(j), 7, 9, byte(i)})...)
 					}
@@ -648,7 +685,13 @@ func runWSCase(t *testing.T, c *WSCase, trace bool) *common.Outcome {
 				return
 			}
 			for j := 2; j < len(ev); j++ {
-				if ev[j] == "close" && j != len(ev)-1 {
+				rest := 0
+				for _, e := range ev[j+1:] {
+					if e != "pong-start" && e != "pong-end" { // (the statement orders message callbacks and the close callback)
+						rest++
+					}
+				}
+				if ev[j] == "close" && rest > 0 {
 					fail("callback-after-close", class, "connection %d: callbacks after the close callback; log: %v", i, ev)
 					return
 				}
